@@ -6,6 +6,7 @@ import TxdbusModel.Proofs.Msg.GeneralMsg
 import TxdbusModel.Proofs.Msg.GeneralForeign
 import TxdbusModel.Proofs.Msg.GeneralShape
 import TxdbusModel.Proofs.Msg.Forward
+import TxdbusModel.Proofs.Msg.Again
 /-!
 # C03 - Every constructible message serialises well-formed and parses back intact
 
@@ -1126,6 +1127,85 @@ theorem forward_drops_field_outside_table :
       = some (true, true, some 3, some ":1.9".toList) := by
   decide +kernel
 
+/-! ## The second use of one message object (state-leak round 2026-09-30; Msg/Again.lean)
+
+`_marshal` can be called again on an object a constructor has marshalled (the bus does it with `rawBody=`; here:
+`rawBody=None`, the body is encoded again).  Nothing of the first call may accumulate in the object or in the class:
+the header list is rebuilt, the `unix_fds` entry is added to a COPY of the class table, the descriptor list is the
+caller's.  The two theorems say that for the model of the code as written, for every constructor call, codec, counter. -/
+
+/-- **Marshalling a constructed message again (`newSerial=False`) changes nothing**: given the `oobFDs` argument the
+constructor was given (`None`, or a list with the same content), `m._marshal(False, oobFDs=…)` leaves the object as it
+is - the same `rawMessage`, `rawHeader`, `rawPadding`, `rawBody`, serial, attributes (so no header field, in particular
+not UNIX_FDS, appears twice) - and does not touch the serial counter, whatever it holds. -/
+theorem marshal_again_same {β : Type} (C : BodyCodec β) (na : Char → Bool) (maxLen : Nat) (st st' st2 : St)
+    (c : Call β) (m : Msg β) (h : construct Gen.Message.tables C na maxLen st c = (st', .ok m)) :
+    marshalAgain Gen.Message.tables C maxLen st2 m false c.oob = (st2, .ok m) :=
+  marshalAgain_same Gen.Message.tables tables_ok C na maxLen st st' c m h st2
+
+/-- **Marshalling a constructed message again with a new serial is the constructor call again**, at the counter's
+current value: same outcome (message or exception), same counter afterwards.  Hence every theorem above about
+constructed messages (`marshal_wellformed`, `serial_fresh`, `parse_marshal`, …) holds for the re-marshalled object. -/
+theorem marshal_again_new {β : Type} (C : BodyCodec β) (na : Char → Bool) (maxLen : Nat) (st st' st2 : St)
+    (c : Call β) (m : Msg β) (h : construct Gen.Message.tables C na maxLen st c = (st', .ok m)) :
+    marshalAgain Gen.Message.tables C maxLen st2 m true c.oob = construct Gen.Message.tables C na maxLen st2 c :=
+  marshalAgain_new Gen.Message.tables tables_ok C na maxLen st st' c m h st2
+
+/-- The re-marshalled object is well-formed with the NEW serial (how `marshal_again_new` is used). -/
+example {β : Type} (C : BodyCodec β) (na : Char → Bool) (st st' st2 st3 : St) (c : Call β) (m m2 : Msg β)
+    (hs : 1 ≤ st2.nextSerial)
+    (h : construct Gen.Message.tables C na Gen.Message.maxMsgLen st c = (st', .ok m))
+    (h2 : marshalAgain Gen.Message.tables C Gen.Message.maxMsgLen st2 m true c.oob = (st3, .ok m2)) :
+    m2.serial = st2.nextSerial ∧ st3.nextSerial = st2.nextSerial + 1 ∧ m2.serial ≠ 0 := by
+  rw [marshal_again_new C na Gen.Message.maxMsgLen st st' st2 c m h] at h2
+  obtain ⟨sm, B⟩ := construct_ok Gen.Message.tables tables_ok C na Gen.Message.maxMsgLen st2 st3 c m2 h2
+  exact ⟨B.serial, B.next, by rw [B.serial]; omega⟩
+
+/-- The hypotheses are satisfiable, and the statement evaluated: `MethodCallMessage('/a', 'm', signature='h', body=[42],
+oobFDs=[])` built at counter 1 carries UNIX_FDS = 1; marshalled again with `newSerial=False` and a fresh `[]` at counter 9
+it is the same object and the counter is still 9; with `newSerial=True` it gets serial 9 and still UNIX_FDS = 1. -/
+example :
+    let T := Gen.Message.tables
+    let c : Call PyVal := .methodCall { path := some "/a".toList, member := some "m".toList, signature := some "h".toList,
+                                        body := some (.list [.int .plain 42]), oobFDs := some [] }
+    ∃ st' m, construct T (wireCodec 2) (fun _ => false) Gen.Message.maxMsgLen ⟨1⟩ c = (st', .ok m) ∧
+      (m.attrs .unixFds).asInt? = some 1 ∧
+      (marshalAgain T (wireCodec 2) Gen.Message.maxMsgLen ⟨9⟩ m false (some [])).1 = ⟨9⟩ ∧
+      ((marshalAgain T (wireCodec 2) Gen.Message.maxMsgLen ⟨9⟩ m false (some [])).2.toOption.map (·.raw)) = some m.raw ∧
+      ((marshalAgain T (wireCodec 2) Gen.Message.maxMsgLen ⟨9⟩ m true (some [])).2.toOption.map
+          fun m2 => (m2.serial, (m2.attrs .unixFds).asInt?)) = some (9, some 1) := by
+  intro T c
+  obtain ⟨st', m, h⟩ := construct_shape (T := T) (C := wireCodec 2) (na := fun _ => false)
+    (maxLen := Gen.Message.maxMsgLen) (st := ⟨1⟩) (c := c) (by decide +kernel)
+  have hs := marshal_again_same (wireCodec 2) (fun _ => false) Gen.Message.maxMsgLen ⟨1⟩ st' ⟨9⟩ c m h
+  have hn := marshal_again_new (wireCodec 2) (fun _ => false) Gen.Message.maxMsgLen ⟨1⟩ st' ⟨9⟩ c m h
+  have hc : c.oob = some [] := rfl
+  rw [hc] at hs hn
+  have hu : ((construct T (wireCodec 2) (fun _ => false) Gen.Message.maxMsgLen ⟨1⟩ c).2.toOption.map
+      fun m => (m.attrs .unixFds).asInt?) = some (some 1) := by decide +kernel
+  have h9 : ((construct T (wireCodec 2) (fun _ => false) Gen.Message.maxMsgLen ⟨9⟩ c).2.toOption.map
+      fun m2 => (m2.serial, (m2.attrs .unixFds).asInt?)) = some (9, some 1) := by decide +kernel
+  refine ⟨st', m, h, ?_, ?_, ?_, ?_⟩
+  · rw [h] at hu; simpa [Except.toOption] using hu
+  · rw [hs]
+  · rw [hs]; rfl
+  · rw [hn]; exact h9
+
+/-- **Witness: a descriptor list that outlives one construction breaks the message** (what a mutable default argument
+`oobFDs=[]` does on the second call, STATE_AUDIT G2).  The same call as above, handed a list that still holds the
+descriptor of an EARLIER message, announces UNIX_FDS = 2 for a body with one descriptor, and the body's index is 1, not 0:
+the per-call fresh list (`None` default, `[]` from the caller) is what the theorems rely on. -/
+theorem shared_descriptor_list_leaks :
+    let T := Gen.Message.tables
+    let call (oob : List PyVal) : Call PyVal :=
+      .methodCall { path := some "/a".toList, member := some "m".toList, signature := some "h".toList,
+                    body := some (.list [.int .plain 42]), oobFDs := some oob }
+    ((construct T (wireCodec 2) (fun _ => false) Gen.Message.maxMsgLen ⟨1⟩ (call [])).2.toOption.map
+        fun m => ((m.attrs .unixFds).asInt?, m.rawBody)) = some (some 1, [0, 0, 0, 0]) ∧
+    ((construct T (wireCodec 2) (fun _ => false) Gen.Message.maxMsgLen ⟨2⟩ (call [.int .plain 41])).2.toOption.map
+        fun m => ((m.attrs .unixFds).asInt?, m.rawBody)) = some (some 2, [1, 0, 0, 0]) := by
+  decide +kernel
+
 /-! ## Witnesses: the code before the repairs violates the property (the replays of F4 and F5) -/
 
 /-- F4 (repaired by 7466ae7): before the repair `parseMessage` ignored the flags byte - a call built with
@@ -1199,3 +1279,6 @@ end Txdbus.Msg
 #print axioms Txdbus.Msg.forward_parse
 #print axioms Txdbus.Msg.forward_foreign
 #print axioms Txdbus.Msg.forward_drops_field_outside_table
+#print axioms Txdbus.Msg.marshal_again_same
+#print axioms Txdbus.Msg.marshal_again_new
+#print axioms Txdbus.Msg.shared_descriptor_list_leaks
